@@ -70,12 +70,18 @@ inductive KeyArg
   | single (k : KeyDesc)                         -- one imported key (any single form)
   | keySet (ks : List KeyDesc)                   -- `KeySet` object
   | dictSet (ks : List KeyDesc)                  -- `{"keys": [...]}` dict / JSON text / list
+  | resolver (answer : Option KeyDesc)           -- a callable `key(header, payload)`; `none` = it has no key for this token
+  | absent                                       -- the caller passes no key at all (`None`)
   deriving Repr
 
-/-- `KeySet.find_by_kid` / `create_load_key` -/
-def selectKey (arg : KeyArg) (kid : Option String) : Except Err KeyDesc :=
+/-- `KeySet.find_by_kid` / `create_load_key`, and `_prepare_algorithm_key`: a callable is asked, and ONLY when the caller passed no key
+    at all is the token's own `jwk` header used (`embedded`); no key at the end = ValueError -/
+def selectKey (arg : KeyArg) (kid : Option String) (embedded : Option KeyDesc := none) : Except Err KeyDesc :=
   match arg with
   | .single k => .ok k
+  | .resolver (some k) => .ok k
+  | .resolver none => .error .keyValue
+  | .absent => (match embedded with | some k => .ok k | none => .error .keyValue)
   | .keySet ks =>
     match kid with
     | none => (match ks with | [k] => .ok k | _ => .error .keyValue)
@@ -96,6 +102,7 @@ structure Hdr where
   crit : Option (List String) := none      -- `none` = absent; the list as given
   critWellFormed : Bool := true            -- a non-empty JSON array of strings
   members : List String := []              -- names present in the protected header
+  jwk : Option KeyDesc := none             -- the key the token carries in its own `jwk` header, if any
   deriving Repr
 
 /-- `_validate_crit_headers` -/
@@ -117,7 +124,7 @@ def policy (registry : String → Option Alg) (privateOps : List String) (allowe
     match registry name with
     | none => .error .unsupportedAlg
     | some a =>
-      match selectKey arg h.kid with
+      match selectKey arg h.kid h.jwk with
       | .error e => .error e
       | .ok k =>
         if !familyOk a k.kty then .error .keyValue else
